@@ -111,7 +111,7 @@ func checkC20(r *Run) {
 	r1 := r.Rule("R-C20-1", "clone() returns a fresh Message whose every field is copied from the receiver's same field; slice fields through a fresh backing array")
 	r2 := r.Rule("R-C20-2", "every Handler.Serve hand-over in ServeMux.Serve / ServeAsync.Serve receives a clone of the dispatcher's parameter taken anew per hand-over, in the dispatching goroutine")
 	r3 := r.Rule("R-C20-3", "the dispatchers do not store the incoming message or its clones")
-	r1.Floor(6)
+	r1.Floor(4)
 	r2.Floor(2)
 	if msgT == nil {
 		r1.Lost("type Message", "type Message not found")
